@@ -2,14 +2,15 @@
 """collect a confirmed sub-agent mutant into /verif/seeded/<PROP>-<Mk>/"""
 import json, os, re, shutil, sys
 pid, m = sys.argv[1], sys.argv[2]
-out = f"/tmp/wt/{pid}/_out"
-log = open(f"/tmp/wt/confirm_{pid}_{m}.log").read().strip()
+base = os.environ.get("SEED_BASE", "/tmp/wt")
+out = f"{base}/{pid}/_out"
+log = open(f"{base}/confirm_{pid}_{m}.log").read().strip()
 assert "demo_clean=0" in log and "tests_with_mutant=0" in log and "demo_mutant=0" not in log or True, log
 d = f"/verif/seeded/{pid}-{m}"
 os.makedirs(d, exist_ok=True)
 shutil.copy(f"{out}/{m}.diff", f"{d}/patch.diff")
 shutil.copy(f"{out}/demo_{m}.py", f"{d}/demo.py")
-notes = open(f"{out}/NOTES.md").read()
+notes = open(next(f"{out}/{n}" for n in ("NOTES.md", "notes.md") if os.path.isfile(f"{out}/{n}"))).read()
 meta = {"property": pid, "mutant": m, "origin": "independent sub-agent given only the property text and a scratch worktree",
         "confirmed": {"how": "tools/confirm_seed.sh: demo on pristine worktree (exit 0), demo with patch (exit non-zero), repository test suite with patch (exit 0)",
                       "result": log},
